@@ -1,4 +1,5 @@
 import FeatherModel.Lemmas.VisitLocal
+import FeatherModel.Lemmas.VisitSkip
 import FeatherModel.Lemmas.VisitReplay
 
 /-!
@@ -20,6 +21,11 @@ Scope notes (what "the same facts" means here):
   by the harness only after resolving labels to instruction indices.
 * `FramesExact` (`framesExact c`): every attribute the reader may parse consumes exactly its declared length. It is
   what the JVMS demands of a class file; `frames_exact_needed_witness` shows that the reader depends on it.
+* The code as of 52da0aa (the reader honours `ClassInterests.fields` / `.methods`: fields are skipped, methods not read),
+  47a6ce7 (`Code::accept` strips the stack map frames for a visitor without `stack_map_table` interest) and e55a129
+  (`Code::accept` hands out the entries, and halves of entries, of the local variable tables asked for). What is left of
+  the read / replay difference is the order of delivery (`accept_order_witness`) and `visit_local_variables(vec![])`
+  calls without entries (`accept_empty_local_variables_witness`).
 -/
 
 namespace Thm.C17
@@ -33,15 +39,15 @@ def exClass : ClassFrame where
   hdrOk := true
   hdr := 120
   h := 7
-  fields := [⟨1, [⟨.constantValue, 2, 2, [5]⟩, ⟨.deprecated, 0, 0, []⟩, ⟨.other, 3, 0, [9]⟩]⟩,
-             ⟨2, [⟨.signature, 2, 2, [1]⟩, ⟨.rva, 8, 8, [1, 2]⟩]⟩]
+  fields := [⟨1, [⟨.constantValue, 2, 2, [5]⟩, ⟨.deprecated, 0, 0, []⟩, ⟨.other, 3, 0, [9]⟩], true⟩,
+             ⟨2, [⟨.signature, 2, 2, [1]⟩, ⟨.rva, 8, 8, [1, 2]⟩], true⟩]
   methods := [⟨3, [.leaf ⟨.exceptions, 4, 4, [1]⟩,
                    .code { len := 12 + (2 + (6 + 7) + (6 + 6) + (6 + 12) + (6 + 12) + (6 + 9) + (6 + 4)), hdr := 12,
                            maxs := 1, insns := 2, exc := 3,
                            attrs := [⟨.stackMapTable, 7, 7, [1]⟩, ⟨.lineNumberTable, 6, 6, [1]⟩, ⟨.lvt, 12, 12, [1]⟩,
                                      ⟨.lvtt, 12, 12, [1]⟩, ⟨.rvta, 9, 9, [4]⟩, ⟨.signature, 4, 2, [8]⟩] },
-                   .leaf ⟨.rvpa, 5, 0, []⟩, .leaf ⟨.synthetic, 0, 0, []⟩]⟩,
-              ⟨4, []⟩]
+                   .leaf ⟨.rvpa, 5, 0, []⟩, .leaf ⟨.synthetic, 0, 0, []⟩], true⟩,
+              ⟨4, [], true⟩]
   attrs := [.leaf ⟨.sourceFile, 2, 2, [3]⟩,
             .record (2 + (4 + (2 + (6 + 2))) + (4 + 2)) [⟨1, [⟨.signature, 2, 2, [6]⟩]⟩, ⟨2, []⟩],
             .leaf ⟨.bootstrapMethods, 6, 6, []⟩, .leaf ⟨.code, 3, 99, [1]⟩]
@@ -68,12 +74,24 @@ theorem consumed_mask_independent {cfg : Cfg} {c : ClassFrame} {avail n : Nat} {
     (hx : framesExact c = true) (h : readWith cfg c avail = .ok (n, evs)) : n = c.size :=
   readWith_pos (framesExact_parts hx).2.2 h
 
+/-- **consumed_members_skipped**: a class visitor without interest in fields and methods makes the reader skip every
+field and leave the methods unread inside `with_pos`; the cursor is put back to the end of the class attributes all the
+same, i.e. to the end of the class file — here only the class attributes need to be exactly framed, nothing inside the
+members is looked at -/
+theorem consumed_members_skipped {cfg : Cfg} {c : ClassFrame} {avail n : Nat} {evs : List Ev}
+    (_hf : cfg.fieldsI = false) (_hm : cfg.methodsI = false)
+    (hx : c.attrs.all cattrExact = true) (h : readWith cfg c avail = .ok (n, evs)) : n = c.size :=
+  readWith_pos hx h
+
 theorem consumed_same {cfg cfg' : Cfg} {c : ClassFrame} {avail n n' : Nat} {evs evs' : List Ev}
     (hx : framesExact c = true) (h : readWith cfg c avail = .ok (n, evs))
     (h' : readWith cfg' c avail = .ok (n', evs')) : n = n' := by
   rw [consumed_mask_independent hx h, consumed_mask_independent hx h']
 
 example : (readWith exCfg exClass exClass.size).map (·.1) = .ok exClass.size := by decide
+example : (readWith { exCfg with fieldsI := false, methodsI := false } exClass exClass.size).map (·.1)
+    = .ok exClass.size := by decide
+example : (readWith { full with methodsI := false } exClass exClass.size).map (·.1) = .ok exClass.size := by decide
 
 /-- the reader depends on exact framing: with a `Deprecated` attribute of declared length 1 (it is neither parsed nor
 skipped) the full read is desynchronised while a declining visitor's `skip_attributes` passes over it -/
@@ -92,7 +110,7 @@ theorem old_stack_map_regression :
     let c : ClassFrame := { hdrOk := true, hdr := 10, h := 1, fields := [], attrs := [],
                             methods := [⟨2, [.code { len := 12 + 2 + (6 + 6) + (6 + 14), hdr := 12, maxs := 1, insns := 2,
                                                      exc := 3, attrs := [⟨.lineNumberTable, 6, 6, [1]⟩,
-                                                                         ⟨.stackMap, 14, 14, [2]⟩] }]⟩] }
+                                                                         ⟨.stackMap, 14, 14, [2]⟩] }], true⟩] }
     let cfg : Cfg := { full with method := fun _ => some { mask := allMask, code := true,
                                                            codeV := some (fun k => k != .lineNumberTable) } }
     wellFormed c = true ∧
@@ -122,11 +140,109 @@ theorem delivered_projection {cfg : Cfg} {c : ClassFrame} {avail : Nat} (hwf : w
     (hle : c.size ≤ avail) :
     readWith cfg c avail = .ok (c.size, (fullEvents c).filterMap (proj cfg)) := by
   have hx : framesExact c = true := by
-    simp only [wellFormed, Bool.and_eq_true] at hwf; exact hwf.1.1.1
+    simp only [wellFormed, Bool.and_eq_true] at hwf; exact hwf.1.1.1.1.1
   exact readWith_proj hx (readWith_full hwf hle)
 
 example : ((fullEvents exClass).filterMap (proj exCfg)).length = 20 := by decide
 example : (fullEvents exClass).length = 36 := by decide
+example : ((fullEvents exClass).filterMap (proj { exCfg with fieldsI := false })).length = 15 := by decide
+example : ((fullEvents exClass).filterMap (proj { exCfg with methodsI := false })).length = 13 := by decide
+
+/-- **member_interests_honoured** (part of `delivered_projection`, spelled out): the projection hands a class visitor
+that reports `interests.fields = false` no event of any field, and one that reports `interests.methods = false` no event
+of any method or `Code` — while `proj` keeps every other event as it would with the flags set (`member_flags_local`) -/
+theorem fields_not_of_interest_not_delivered (cfg : Cfg) (hf : cfg.fieldsI = false) (evs : List Ev) :
+    ∀ e ∈ evs.filterMap (proj cfg), ∀ i, e.owner ≠ .field i := by
+  intro e' he' i ho
+  obtain ⟨e, _, he⟩ := List.mem_filterMap.mp he'
+  have hown := proj_owner he
+  obtain ⟨hb, ha, hfl, hen⟩ := proj_fields_none (cfg := cfg) (Or.inr hf)
+  rw [ho] at hown
+  cases e with
+  | fieldBegin j h => rw [hb] at he; cases he
+  | fAttr j unk k pay => rw [ha] at he; cases he
+  | fieldFlags j d s => rw [hfl] at he; cases he
+  | fieldEnd j => rw [hen] at he; cases he
+  | _ => simp [Ev.owner] at hown
+
+theorem methods_not_of_interest_not_delivered (cfg : Cfg) (hm : cfg.methodsI = false) (evs : List Ev) :
+    ∀ e ∈ evs.filterMap (proj cfg), ∀ i, e.owner ≠ .method i ∧ e.owner ≠ .code i := by
+  intro e' he' i
+  obtain ⟨e, _, he⟩ := List.mem_filterMap.mp he'
+  have hown := proj_owner he
+  obtain ⟨hb, ha, hfl, hen, hcb, hn⟩ := proj_methods_none (cfg := cfg) (Or.inr hm)
+  have key : ∀ o, (o = Owner.method i ∨ o = Owner.code i) → e'.owner ≠ o := by
+    intro o hor ho
+    rw [ho] at hown
+    cases e with
+    | methodBegin j h => rw [hb] at he; cases he
+    | mAttr j unk k pay => rw [ha] at he; cases he
+    | methodFlags j d s => rw [hfl] at he; cases he
+    | methodEnd j => rw [hen] at he; cases he
+    | codeBegin j => rw [hcb] at he; cases he
+    | codeMaxs j h => simp [hn, keepIf] at he
+    | codeExc j h => simp [hn, keepIf] at he
+    | codeEnd j => simp [hn, keepIf] at he
+    | kAttr j unk k pay => simp [hn] at he
+    | codeInsns j fr h => simp [hn] at he
+    | codeLines j parts => simp [hn] at he
+    | codeLocals j parts => simp [hn] at he
+    | _ => rcases hor with rfl | rfl <;> simp [Ev.owner] at hown
+  exact ⟨key _ (Or.inl rfl), key _ (Or.inr rfl)⟩
+
+/-- the two flags touch nothing but the members: every event that belongs to the class itself or to a record component
+is projected as if the flags were set -/
+theorem member_flags_local (cfg : Cfg) (fi mi : Bool) (evs : List Ev) :
+    (evs.filterMap (proj { cfg with fieldsI := fi, methodsI := mi })).filter
+        (fun e => e.owner == .cls || e matches .recBegin .. || e matches .rAttr .. || e matches .recEnd ..)
+      = (evs.filterMap (proj cfg)).filter
+        (fun e => e.owner == .cls || e matches .recBegin .. || e matches .rAttr .. || e matches .recEnd ..) :=
+  filter_filterMap_congr
+    (fun e e' h => by
+      have := proj_owner h
+      cases e <;> simp only [proj, keepIf] at h <;> (repeat' split at h) <;>
+        first | (simp only [Option.some.injEq] at h; subst h; rfl) | (simp at h))
+    (fun e e' h => by
+      cases e <;> simp only [proj, keepIf] at h <;> (repeat' split at h) <;>
+        first | (simp only [Option.some.injEq] at h; subst h; rfl) | (simp at h))
+    (fun e h => by cases e <;> simp [Ev.owner] at h <;> simp [proj, recMaskOf]) evs
+
+/-- **members_skipped_read_spec**: a visitor that declines the class, or whose class visitor reports neither `fields` nor
+`methods`, reads every class file whose header and class attributes are well formed (`classLevelWf`: nothing is assumed
+about what is inside the fields and methods — unresolvable names, attributes that do not parse, refused duplicates —
+beyond the lengths that lay them out): the read succeeds, the cursor ends at the end of the file and the visitor receives
+the projection of the class-level events. Errors inside members it did not ask for do not exist for such a visitor. -/
+theorem members_skipped_read_spec {cfg : Cfg} {c : ClassFrame} {avail : Nat}
+    (hwf : classLevelWf c = true) (hle : c.size ≤ avail)
+    (hs : cfg.cls = none ∨ (cfg.fieldsI = false ∧ cfg.methodsI = false)) :
+    readWith cfg c avail = .ok (c.size, (classEvents c).filterMap (proj cfg)) :=
+  readWith_members_skipped hwf hle hs
+
+/-- … and so are class files concatenated in one stream: one per successive read, whatever their members hold -/
+theorem members_skipped_concat (cs : List ClassFrame) (cfgs : List Cfg) (hwf : ∀ c ∈ cs, classLevelWf c = true)
+    (hl : cfgs.length = cs.length)
+    (hs : ∀ cfg ∈ cfgs, cfg.cls = none ∨ (cfg.fieldsI = false ∧ cfg.methodsI = false)) :
+    readStream cfgs cs 0 (sizes cs) =
+      List.zipWith (fun cfg c => .ok (c.size, (classEvents c).filterMap (proj cfg))) cfgs cs :=
+  readStream_members_skipped cs cfgs 0 (sizes cs) hwf hl (by omega) hs
+
+/-- **skipped_members_not_validated**: what the reader does not look at cannot make it fail. A field whose name index
+does not resolve and a method with two `StackMapTable`s make the full read fail; a class visitor that reports
+`fields = false, methods = false` reads the same bytes without error, receives the class-level events and the cursor
+ends at the end of the file. With only `methods = false` the bad field is still visited (error), with only
+`fields = false` the bad method. -/
+theorem skipped_members_not_validated :
+    let k : Code := { len := 12 + 2 + (6 + 7) + (6 + 7), hdr := 12, maxs := 1, insns := 2, exc := 3,
+                      attrs := [⟨.stackMapTable, 7, 7, [4]⟩, ⟨.stackMapTable, 7, 7, [5]⟩] }
+    let c : ClassFrame := { hdrOk := true, hdr := 10, h := 1, attrs := [.leaf ⟨.sourceFile, 2, 2, [3]⟩],
+                            fields := [⟨5, [], false⟩], methods := [⟨2, [.code k], true⟩] }
+    readWith full c c.size = .error .err ∧
+    readWith { full with methodsI := false } c c.size = .error .err ∧
+    readWith { full with fieldsI := false } c c.size = .error .err ∧
+    readWith { full with fieldsI := false, methodsI := false } c c.size
+      = .ok (c.size, [.classBegin 1, .cAttr false .sourceFile [3], .classFlags false false, .classEnd]) ∧
+    classLevelWf c = true ∧ wellFormed c = false := by
+  decide
 
 /-! ## declining or re-masking an item does not disturb the other items -/
 
@@ -213,37 +329,121 @@ theorem accept_projection (cfg : Cfg) (t : ClassTree) :
     accept cfg t = (accept full t).filterMap (projA cfg) :=
   accept_proj cfg t
 
-/-- where replay and read project alike: `projA cfg` and `proj cfg` agree on every event when the class visitor asks for
-fields and methods and every code visitor asks for stack map frames and treats the two local variable tables alike
-(`hne`: the tree holds no `Some(vec![])` local variable table — the reader never produces one) -/
-theorem accept_projection_as_read_partial (cfg : Cfg) (hf : cfg.fieldsI = true) (hm : cfg.methodsI = true)
-    (hcode : ∀ i cm, codeMaskOf cfg i = some cm → cm .stackMapTable = true ∧ cm .lvt = cm .lvtt)
-    (t : ClassTree) (hne : ∀ i, Ev.codeLocals i [] ∉ accept full t) :
+/-- **accept_projection_as_read** (full strength): for every configuration — every interest mask at every level,
+`fields` / `methods` on or off, any stack map and local variable interests, anything declined — the masked replay is
+exactly the reader's projection of the full replay: same events (including `visit_local_variables` with the entries, and
+halves of entries, of the tables asked for), same order. No hypothesis on the visitor. The one hypothesis is on the
+tree: every local variable vector it holds has entries, part by part (`localsHaveEntries`, decidable). It cannot be
+dropped (`accept_empty_local_variables_witness`): a `Some(vec![])` in the tree does not say which table was present and
+empty — `Code::accept` hands it to every code visitor interested in one of the two tables, the reader calls
+`visit_local_variables` only when a table *the visitor asked for* is present. Trees read from classes whose
+`LocalVariableTable`s / `LocalVariableTypeTable`s all have entries satisfy it. -/
+theorem accept_projection_as_read (cfg : Cfg) (t : ClassTree) (hne : localsHaveEntries (accept full t) = true) :
     accept cfg t = (accept full t).filterMap (proj cfg) := by
   rw [accept_proj cfg t]
-  exact filterMap_projA_eq_proj cfg hf hm hcode _ hne
+  exact filterMap_projA_eq_proj cfg _ (localsHaveEntries_spec hne)
 
-/-- **reader_ignores_member_interests_witness**: `ClassInterests.fields = false` is honoured by `ClassFile::accept`
-(no field is replayed) and ignored by the reader (the field is visited): read and replay of the same class differ for
-this visitor -/
-theorem reader_ignores_member_interests_witness :
-    let c : ClassFrame := { hdrOk := true, hdr := 10, h := 1, fields := [⟨5, []⟩], methods := [], attrs := [] }
+/-- **accept_projection_as_read_up_to_empty** (no hypothesis at all): for every configuration and every tree, masked
+replay and the reader's projection of the full replay agree on everything but `visit_local_variables` calls without
+entries (which tell a visitor nothing), order preserved -/
+theorem accept_projection_as_read_up_to_empty (cfg : Cfg) (t : ClassTree) :
+    (accept cfg t).filter (fun e => !e.vacuous)
+      = ((accept full t).filterMap (proj cfg)).filter (fun e => !e.vacuous) := by
+  rw [accept_proj cfg t]
+  exact filterMap_filter_congr (projA_eq_proj_up_to_vacuous cfg) _
+
+/-- non-vacuity: the tree of the class with every kind of structure (a `LocalVariableTable` and a
+`LocalVariableTypeTable` among them) satisfies the hypothesis, and so does its variant with both halves in every entry -/
+example : (build (fullEvents exClass)).map (fun t => localsHaveEntries (accept full t)) = some true := by decide
+example : (build (fullEvents exClass)).map (fun t => localsHaveEntries (accept full t.bothHalves)) = some true := by
+  decide
+
+def exCodeMask : Mask := fun k => k != .stackMapTable && k != .lvtt
+
+/-- on that class, a code visitor interested in `LocalVariableTable` only, stack map frames masked, methods of another
+visitor off: read and replay deliver the same events per item and kind -/
+example : (build (fullEvents exClass)).map (fun t =>
+    let cfg : Cfg := { full with method := fun _ => some ⟨allMask, true, some exCodeMask⟩ }
+    sameDigest (accept cfg t) ((readWith cfg exClass exClass.size).toOption.map (·.2) |>.getD [])
+      && accept cfg t == (accept full t).filterMap (proj cfg)) = some true := by
+  decide
+
+/-- **reader_honours_member_interests** (regression, defect repaired in 52da0aa): the reader used to visit every field
+and method whatever `ClassInterests.fields` / `.methods` said while `ClassFile::accept` honoured the flags. For the
+former witness (one field, a class visitor with `fields = false`) reading the bytes and replaying the tree now deliver
+the same events: no field is visited. -/
+theorem reader_honours_member_interests :
+    let c : ClassFrame := { hdrOk := true, hdr := 10, h := 1, fields := [⟨5, [], true⟩], methods := [], attrs := [] }
     let cfg : Cfg := { full with fieldsI := false }
-    (readWith cfg c c.size).toOption.map (·.2) = some [.classBegin 1, .classFlags false false, .fieldBegin 0 5,
-        .fieldFlags 0 false false, .fieldEnd 0, .classEnd] ∧
+    (readWith cfg c c.size).toOption.map (·.2) = some [.classBegin 1, .classFlags false false, .classEnd] ∧
     (build (fullEvents c)).map (accept cfg) = some [.classBegin 1, .classFlags false false, .classEnd] := by
   decide
 
-/-- **accept_ignores_stack_map_interest_witness**: a code visitor not interested in `stack_map_table` receives no frames
-from the reader but does receive them from `Code::accept` -/
-theorem accept_ignores_stack_map_interest_witness :
-    let c : ClassFrame := { hdrOk := true, hdr := 10, h := 1, fields := [], attrs := [],
-                            methods := [⟨2, [.code { len := 12 + 2 + (6 + 7), hdr := 12, maxs := 1, insns := 2,
-                                                     exc := 3, attrs := [⟨.stackMapTable, 7, 7, [4]⟩] }]⟩] }
+/-- the same for `methods = false` on the class with every kind of structure: read and replay deliver the same events
+per item and kind -/
+example : (build (fullEvents exClass)).map (fun t =>
+    sameDigest (accept { full with methodsI := false } t)
+      ((readWith { full with methodsI := false } exClass exClass.size).toOption.map (·.2) |>.getD [])) = some true := by
+  decide
+
+/-- **accept_honours_stack_map_interest** (regression, defect repaired in 47a6ce7): `Code::accept` used to hand the stack
+map frames to every code visitor. For the former witness (a `Code` with a `StackMapTable`, a code visitor without
+`stack_map_table` interest) the reader and the replay now both deliver the instructions without frames. -/
+theorem accept_honours_stack_map_interest :
+    let k : Code := { len := 12 + 2 + (6 + 7), hdr := 12, maxs := 1, insns := 2, exc := 3,
+                      attrs := [⟨.stackMapTable, 7, 7, [4]⟩] }
+    let c : ClassFrame := { hdrOk := true, hdr := 10, h := 1, fields := [], attrs := [], methods := [⟨2, [.code k], true⟩] }
     let cfg : Cfg := { full with method := fun _ => some { mask := allMask, code := true,
                                                            codeV := some (fun k => k != .stackMapTable) } }
     (readWith cfg c c.size).toOption.map (fun r => r.2.contains (Ev.codeInsns 0 none 2)) = some true ∧
-    (build (fullEvents c)).map (fun t => (accept cfg t).contains (Ev.codeInsns 0 (some [4]) 2)) = some true := by
+    (build (fullEvents c)).map (fun t => (accept cfg t).contains (Ev.codeInsns 0 none 2)
+                                          && !(accept cfg t).contains (Ev.codeInsns 0 (some [4]) 2)) = some true ∧
+    (build (fullEvents c)).map (fun t => accept cfg t == (accept full t).filterMap (proj cfg)) = some true := by
+  decide
+
+/-- **accept_honours_local_variable_interests** (regression, defect repaired in e55a129): `Code::accept` used to hand the
+whole local variable vector to a code visitor as soon as it reported one of `local_variable_table` /
+`local_variable_type_table`. For the former witness (a `Code` with both tables, a code visitor interested in
+`LocalVariableTable` only) the reader and the replay now both deliver the `LocalVariableTable` entries only, and the
+masked replay is the projection of the full one. -/
+theorem accept_honours_local_variable_interests :
+    let k : Code := { len := 12 + 2 + (6 + 12) + (6 + 12), hdr := 12, maxs := 1, insns := 2, exc := 3,
+                      attrs := [⟨.lvt, 12, 12, [1]⟩, ⟨.lvtt, 12, 12, [2]⟩] }
+    let c : ClassFrame := { hdrOk := true, hdr := 10, h := 1, fields := [], attrs := [], methods := [⟨2, [.code k], true⟩] }
+    let cfg : Cfg := { full with method := fun _ => some { mask := allMask, code := true,
+                                                           codeV := some (fun k => k != .lvtt) } }
+    (readWith cfg c c.size).toOption.map (fun r => r.2.contains (Ev.codeLocals 0 [(.d, [1])])) = some true ∧
+    (build (fullEvents c)).map (fun t => (accept cfg t).contains (Ev.codeLocals 0 [(.d, [1])])
+                                          && !(accept cfg t).contains (Ev.codeLocals 0 [(.d, [1]), (.s, [2])])) = some true ∧
+    (build (fullEvents c)).map (fun t => accept cfg t == (accept full t).filterMap (proj cfg)) = some true := by
+  decide
+
+/-- **accept_strips_halves**: a tree can hold entries with both a descriptor and a signature (the reader never builds
+one). A code visitor interested in one table gets the half that belongs to it, one interested in neither gets no
+`visit_local_variables`, one interested in both gets the entries as they are. -/
+theorem accept_strips_halves :
+    let t : ClassTree := { h := 1, methods := [{ h := 2, code := some { locals := some [(.both, [2]), (.s, [1])] } }] }
+    let cfgWith (cm : Mask) : Cfg := { full with method := fun _ => some { mask := allMask, code := true, codeV := some cm } }
+    let localsOf (evs : List Ev) : List Ev := evs.filter (fun e => e.isLocals)
+    localsOf (accept (cfgWith (fun k => k != .lvtt)) t) = [.codeLocals 0 [(.d, [2])]] ∧
+    localsOf (accept (cfgWith (fun k => k != .lvt)) t) = [.codeLocals 0 [(.s, [2]), (.s, [1])]] ∧
+    localsOf (accept (cfgWith (fun k => k != .lvt && k != .lvtt)) t) = [] ∧
+    localsOf (accept (cfgWith allMask) t) = [.codeLocals 0 [(.both, [2]), (.s, [1])]] := by
+  decide
+
+/-- **accept_empty_local_variables_witness** (why `accept_projection_as_read` asks for `localsHaveEntries`): a `Code`
+whose only local variable table is a `LocalVariableTable` without entries gives `local_variables = Some(vec![])` in the
+tree. A code visitor interested in `LocalVariableTypeTable` only receives no `visit_local_variables` from the reader
+(no table it asked for is there) but `visit_local_variables(vec![])` from `Code::accept` (`was_empty`): the two differ
+by an event without entries. -/
+theorem accept_empty_local_variables_witness :
+    let k : Code := { len := 12 + 2 + (6 + 2), hdr := 12, maxs := 1, insns := 2, exc := 3, attrs := [⟨.lvt, 2, 2, [0]⟩] }
+    let c : ClassFrame := { hdrOk := true, hdr := 10, h := 1, fields := [], attrs := [], methods := [⟨2, [.code k], true⟩] }
+    let cfg : Cfg := { full with method := fun _ => some { mask := allMask, code := true,
+                                                           codeV := some (fun k => k != .lvt) } }
+    (readWith cfg c c.size).toOption.map (fun r => r.2.any (fun e => e.isLocals)) = some false ∧
+    (build (fullEvents c)).map (fun t => (accept cfg t).contains (Ev.codeLocals 0 [])) = some true ∧
+    (build (fullEvents c)).map (fun t => localsHaveEntries (accept full t)) = some false := by
   decide
 
 /-- **accept_order_witness**: replay does not keep the reader's order — Deprecated/Synthetic come first instead of last,
